@@ -200,6 +200,8 @@ def reference(inp, mix=None, max_iter=2000):
 FALLBACK = [
     {"mixture": "H2O_EtOH", "T": 333.15, "x": 0.15, "prec": 5e-5, "P1": 0.036091, "P2": 0.0000282, "Tp": 293.15, "Pp": 2.0},
     {"mixture": "H2O_iPOH", "T": 353.15, "x": 0.6, "prec": 1e-4, "P1": 0.02, "P2": 0.004, "Tp": 283.15, "Pp": 5.0},
+    # the low end of the permeance range with the finest precision: absolute slips of 1e-10 in a flux or a fraction are relative 1e-5 here
+    {"mixture": "H2O_EtOH", "T": 293.15, "x": 0.1, "prec": 1e-8, "P1": 1e-6, "P2": 3e-6, "Tp": 278.15, "Pp": 2.297, "k": 1000.0},
 ]
 
 
